@@ -17,97 +17,7 @@ func (d *Drv) checkStats() {
 	if s.Entities.Used != m.NAlive {
 		d.viol("C19", "stats-used", "Stats().Entities.Used=%d, model alive %d", s.Entities.Used, m.NAlive)
 	}
-	if s.Entities.Total != s.Entities.Used+s.Entities.Recycled {
-		d.viol("C19", "stats-total", "Total=%d != Used %d + Recycled %d", s.Entities.Total, s.Entities.Used, s.Entities.Recycled)
-	}
-	if s.Entities.Total > s.Entities.Capacity {
-		d.viol("C19", "stats-capacity", "Total=%d > Capacity=%d", s.Entities.Total, s.Entities.Capacity)
-	}
-	sumA, sumT := 0, 0
-	seen := map[string]int{}
-	memA, memUsedA := 0, 0
-	for i := range s.Archetypes {
-		a := &s.Archetypes[i]
-		ids := append([]uint8{}, a.ComponentIDs...)
-		sort.Slice(ids, func(x, y int) bool { return ids[x] < ids[y] })
-		key := fmt.Sprint(ids)
-		if j, dup := seen[key]; dup {
-			d.viol("C19", "stats-dup-archetype", "archetypes %d and %d have the same component set %s", j, i, key)
-		}
-		seen[key] = i
-		sumA += a.Size
-		memA += a.Memory
-		memUsedA += a.MemoryUsed
-		// memory per entity = entity (8 bytes) + component sizes
-		per := 8
-		nrel := 0
-		for k, id := range a.ComponentIDs {
-			if k < len(a.ComponentTypes) && a.ComponentTypes[k] != nil {
-				per += int(a.ComponentTypes[k].Size())
-				if a.ComponentTypeNames[k] != a.ComponentTypes[k].Name() {
-					d.viol("C19", "stats-typenames", "archetype %d: type name %q for type %v", i, a.ComponentTypeNames[k], a.ComponentTypes[k])
-				}
-			}
-			for c := 0; c < u.N; c++ {
-				if d.ID[c].Index() == id && u.Types[c].IsRel {
-					nrel++
-				}
-			}
-		}
-		if a.MemoryPerEntity != per {
-			d.viol("C19", "stats-mem-per-entity", "archetype %d: MemoryPerEntity=%d, documented sum %d", i, a.MemoryPerEntity, per)
-		}
-		if a.NumRelations != nrel {
-			d.viol("C19", "stats-numrelations", "archetype %d: NumRelations=%d, components contain %d relations", i, a.NumRelations, nrel)
-		}
-		tSize, tCap, tMem, tUsed := 0, 0, 0, 0
-		for j := range a.Tables {
-			t := &a.Tables[j]
-			if t.Size > t.Capacity {
-				d.viol("C19", "stats-table-size", "archetype %d table %d: Size=%d > Capacity=%d", i, j, t.Size, t.Capacity)
-			}
-			if t.Memory != t.Capacity*a.MemoryPerEntity {
-				d.viol("C19", "stats-table-memory", "archetype %d table %d: Memory=%d != Capacity %d x %d", i, j, t.Memory, t.Capacity, a.MemoryPerEntity)
-			}
-			if t.MemoryUsed != t.Size*a.MemoryPerEntity {
-				d.viol("C19", "stats-table-memory", "archetype %d table %d: MemoryUsed=%d != Size %d x %d", i, j, t.MemoryUsed, t.Size, a.MemoryPerEntity)
-			}
-			tSize += t.Size
-			tCap += t.Capacity
-			tMem += t.Memory
-			tUsed += t.MemoryUsed
-		}
-		sumT += tSize
-		if a.Size != tSize {
-			d.viol("C19", "stats-arch-size", "archetype %d: Size=%d != sum of table sizes %d", i, a.Size, tSize)
-		}
-		if a.MemoryUsed != tUsed {
-			d.viol("C19", "stats-arch-memused", "archetype %d: MemoryUsed=%d != sum of tables %d", i, a.MemoryUsed, tUsed)
-		}
-		if a.Memory != a.Capacity*a.MemoryPerEntity {
-			d.viol("C19", "stats-arch-memory", "archetype %d: Memory=%d != Capacity %d x %d", i, a.Memory, a.Capacity, a.MemoryPerEntity)
-		}
-		if a.FreeTables == 0 {
-			if a.Capacity != tCap || a.Memory != tMem {
-				d.viol("C19", "stats-arch-sums", "archetype %d (no free tables): Capacity/Memory %d/%d != table sums %d/%d", i, a.Capacity, a.Memory, tCap, tMem)
-			}
-		} else if a.Capacity < tCap || a.Memory < tMem {
-			d.viol("C19", "stats-arch-sums", "archetype %d: Capacity/Memory %d/%d below table sums %d/%d", i, a.Capacity, a.Memory, tCap, tMem)
-		}
-		if a.NumRelations == 0 && (len(a.Tables) != 1 || a.FreeTables != 0) {
-			d.viol("C19", "stats-tables", "archetype %d without relations has %d tables and %d free tables", i, len(a.Tables), a.FreeTables)
-		}
-	}
-	if sumA != m.NAlive || sumT != m.NAlive {
-		d.viol("C19", "stats-sums", "sum of archetype sizes %d / table sizes %d, model alive %d", sumA, sumT, m.NAlive)
-	}
-	// the world figures add entity bookkeeping (whose layout is not documented) to the archetype sums
-	if s.MemoryUsed < memUsedA || s.MemoryUsed > s.Memory {
-		d.viol("C19", "stats-world-memused", "World.MemoryUsed=%d, archetypes sum %d, World.Memory %d", s.MemoryUsed, memUsedA, s.Memory)
-	}
-	if s.Memory < memA {
-		d.viol("C19", "stats-world-memory", "World.Memory=%d below the archetype sum %d", s.Memory, memA)
-	}
+	d.statsIntrinsic(s, "")
 	nf := 0
 	for i := range m.Filters {
 		if m.Filters[i].Registered {
@@ -135,6 +45,120 @@ func (d *Drv) checkStats() {
 	want := d.Cfg.Fillers + u.N + m.Late
 	if len(s.ComponentTypes) != want || len(s.ComponentTypeNames) != want {
 		d.viol("C19", "stats-components", "ComponentTypes=%d names=%d, registered %d", len(s.ComponentTypes), len(s.ComponentTypeNames), want)
+	}
+}
+
+// statsInCallback applies the rules that need no model to a Stats() call made from inside a callback of a running
+// operation (C19 quantifies over all points at which Stats is called; every fourth callback invocation is sampled).
+func (d *Drv) statsInCallback(where string) {
+	if !d.StatsInCb {
+		return
+	}
+	d.statsCbCtr++
+	if d.statsCbCtr%4 != 0 {
+		return
+	}
+	d.Stat.StatsInCallback++
+	s := d.W.Stats()
+	d.statsIntrinsic(s, " (Stats() called inside "+where+")")
+	if s.Locked != d.W.IsLocked() {
+		d.viol("C19", "stats-locked", "Locked=%v, IsLocked()=%v inside %s", s.Locked, d.W.IsLocked(), where)
+	}
+}
+
+// statsIntrinsic applies the C19 rules that relate the figures of one Stats() result to each other.
+func (d *Drv) statsIntrinsic(s *stats.World, where string) {
+	viol := func(kind, f string, a ...any) { d.viol("C19", kind, f+where, a...) }
+	if s.Entities.Total != s.Entities.Used+s.Entities.Recycled {
+		viol("stats-total", "Total=%d != Used %d + Recycled %d", s.Entities.Total, s.Entities.Used, s.Entities.Recycled)
+	}
+	if s.Entities.Total > s.Entities.Capacity {
+		viol("stats-capacity", "Total=%d > Capacity=%d", s.Entities.Total, s.Entities.Capacity)
+	}
+	sumA, sumT := 0, 0
+	seen := map[string]int{}
+	memA, memUsedA := 0, 0
+	for i := range s.Archetypes {
+		a := &s.Archetypes[i]
+		ids := append([]uint8{}, a.ComponentIDs...)
+		sort.Slice(ids, func(x, y int) bool { return ids[x] < ids[y] })
+		key := fmt.Sprint(ids)
+		if j, dup := seen[key]; dup {
+			viol("stats-dup-archetype", "archetypes %d and %d have the same component set %s", j, i, key)
+		}
+		seen[key] = i
+		sumA += a.Size
+		memA += a.Memory
+		memUsedA += a.MemoryUsed
+		// memory per entity = entity (8 bytes) + component sizes
+		per := 8
+		nrel := 0
+		for k, id := range a.ComponentIDs {
+			if k < len(a.ComponentTypes) && a.ComponentTypes[k] != nil {
+				per += int(a.ComponentTypes[k].Size())
+				if a.ComponentTypeNames[k] != a.ComponentTypes[k].Name() {
+					viol("stats-typenames", "archetype %d: type name %q for type %v", i, a.ComponentTypeNames[k], a.ComponentTypes[k])
+				}
+			}
+			for c := 0; c < u.N; c++ {
+				if d.ID[c].Index() == id && u.Types[c].IsRel {
+					nrel++
+				}
+			}
+		}
+		if a.MemoryPerEntity != per {
+			viol("stats-mem-per-entity", "archetype %d: MemoryPerEntity=%d, documented sum %d", i, a.MemoryPerEntity, per)
+		}
+		if a.NumRelations != nrel {
+			viol("stats-numrelations", "archetype %d: NumRelations=%d, components contain %d relations", i, a.NumRelations, nrel)
+		}
+		tSize, tCap, tMem, tUsed := 0, 0, 0, 0
+		for j := range a.Tables {
+			t := &a.Tables[j]
+			if t.Size > t.Capacity {
+				viol("stats-table-size", "archetype %d table %d: Size=%d > Capacity=%d", i, j, t.Size, t.Capacity)
+			}
+			if t.Memory != t.Capacity*a.MemoryPerEntity {
+				viol("stats-table-memory", "archetype %d table %d: Memory=%d != Capacity %d x %d", i, j, t.Memory, t.Capacity, a.MemoryPerEntity)
+			}
+			if t.MemoryUsed != t.Size*a.MemoryPerEntity {
+				viol("stats-table-memory", "archetype %d table %d: MemoryUsed=%d != Size %d x %d", i, j, t.MemoryUsed, t.Size, a.MemoryPerEntity)
+			}
+			tSize += t.Size
+			tCap += t.Capacity
+			tMem += t.Memory
+			tUsed += t.MemoryUsed
+		}
+		sumT += tSize
+		if a.Size != tSize {
+			viol("stats-arch-size", "archetype %d: Size=%d != sum of table sizes %d", i, a.Size, tSize)
+		}
+		if a.MemoryUsed != tUsed {
+			viol("stats-arch-memused", "archetype %d: MemoryUsed=%d != sum of tables %d", i, a.MemoryUsed, tUsed)
+		}
+		if a.Memory != a.Capacity*a.MemoryPerEntity {
+			viol("stats-arch-memory", "archetype %d: Memory=%d != Capacity %d x %d", i, a.Memory, a.Capacity, a.MemoryPerEntity)
+		}
+		if a.FreeTables == 0 {
+			if a.Capacity != tCap || a.Memory != tMem {
+				viol("stats-arch-sums", "archetype %d (no free tables): Capacity/Memory %d/%d != table sums %d/%d", i, a.Capacity, a.Memory, tCap, tMem)
+			}
+		} else if a.Capacity < tCap || a.Memory < tMem {
+			viol("stats-arch-sums", "archetype %d: Capacity/Memory %d/%d below table sums %d/%d", i, a.Capacity, a.Memory, tCap, tMem)
+		}
+		if a.NumRelations == 0 && (len(a.Tables) != 1 || a.FreeTables != 0) {
+			viol("stats-tables", "archetype %d without relations has %d tables and %d free tables", i, len(a.Tables), a.FreeTables)
+		}
+	}
+	if sumA != s.Entities.Used || sumT != s.Entities.Used {
+		viol("stats-sums", "sum of archetype sizes %d / table sizes %d, Entities.Used %d", sumA, sumT, s.Entities.Used)
+	}
+	// the world figures add entity bookkeeping (whose layout is not documented) to the archetype sums
+	if s.MemoryUsed < memUsedA || s.MemoryUsed > s.Memory {
+		viol("stats-world-memused", "World.MemoryUsed=%d, archetypes sum %d, World.Memory %d", s.MemoryUsed, memUsedA, s.Memory)
+	}
+	if s.Memory < memA {
+		viol("stats-world-memory", "World.Memory=%d below the archetype sum %d", s.Memory, memA)
 	}
 }
 
